@@ -7,3 +7,4 @@ open Genq.Doc
 #print axioms C03_closure_once
 #print axioms C03_closure_sound
 #print axioms C03_closure_direct
+#print axioms C03_closure_complete
